@@ -1893,6 +1893,11 @@ static PyObject * matrix_imul(PyObject *self,PyObject *other)
 static PyObject *
 matrix_div_generic(PyObject *self, PyObject *other, int inplace)
 {
+  if (!(Matrix_Check(self) || PY_NUMBER(self))) {
+    Py_INCREF(Py_NotImplemented);
+    return Py_NotImplemented;
+  }
+
   if (!((Matrix_Check(other) && MAT_LGT(other)==1) || PY_NUMBER(other))) {
     Py_INCREF(Py_NotImplemented);
     return Py_NotImplemented;
@@ -1941,6 +1946,11 @@ static PyObject * matrix_idiv(PyObject *self,PyObject *other)
 static PyObject *
 matrix_rem_generic(PyObject *self, PyObject *other, int inplace)
 {
+  if (!(Matrix_Check(self) || PY_NUMBER(self))) {
+    Py_INCREF(Py_NotImplemented);
+    return Py_NotImplemented;
+  }
+
   if (!((Matrix_Check(other) && MAT_LGT(other)==1) || PY_NUMBER(other))) {
     Py_INCREF(Py_NotImplemented);
     return Py_NotImplemented;
